@@ -363,6 +363,8 @@ def pair_format(rng):
     """Same abstract Hamiltonian, two different containers."""
     A = base_instance(rng, k=rng.choice([1, 2, 2, 3]))
     A["format"] = "dict"
+    if rng.random() < 0.25:
+        hermitian.shrink_parameter(A)
     B = copy.deepcopy(A)
     B["format"] = rng.choice(["list", "symkeys", "sympy_matrix", "blockseries", "symkeys",
                               "blocklist", "blockdict", "blockseries2"])
@@ -391,6 +393,10 @@ def pair_sympy_matrix_mixed(rng):
 def pair_vtype(rng):
     """Same abstract Hamiltonian, dense / sparse / symbolic values."""
     A = base_instance(rng, vtype="numpy_complex")
+    if rng.random() < 0.4:
+        # stratum "tiny term": entries of ~1e-9 in the last parameter's first-order term (a zero test with
+        # the wrong tolerance drops the term for some value types / containers only)
+        hermitian.shrink_parameter(A)
     B = copy.deepcopy(A)
     B["vtype"] = rng.choice(["sympy", "sparse", "sympy"])
     B["format"] = rng.choice(FORMATS)
@@ -509,6 +515,7 @@ def projection_session(A, sid, p, pid):
     outB, outA = [], []
     M, Mi = A["basis"]["M"], A["basis"]["Mi"]
     allterms = {(0,) * k: hermitian.h0_user(A), **A["terms"]}
+    hermitian.EXACT_TINY = A.get("tiny_parameter") is not None
     for n in ords:
         blk, _ = hermitian.assemble(op, n, sizes, p)
         outB.append({"Ht": blk, "U": blk, "Ud": blk})
